@@ -322,7 +322,10 @@ class TidesBase(WorldConfigHolder):
                     )
 
         # Determine if new tidal frequencies need to be calculated
-        if spin_freq_changed or orbital_freq_changed:
+        # The tidal terms are built from the eccentricity and obliquity results as well as from the frequencies, so they
+        #    must be rebuilt whenever any of those were updated above (`_need_to_collapse_modes` is reset at the top of
+        #    this method and is only set once one of the results has been recalculated).
+        if spin_freq_changed or orbital_freq_changed or self._need_to_collapse_modes:
             if eccentricity_results is not None and obliquity_results is not None and \
                     spin_frequency is not None and orbital_frequency is not None:
                 # Update the tidal frequencies and terms using the new orbital frequency
